@@ -59,6 +59,12 @@ def gen_text(rng):
         cont = [rng.choice(["Requires-Dist: legacy-shim<1.0", "Version: 0.0.1", "Name: not-the-name", "Changelog", "requires-dist: six"])
                 for _ in range(rng.randint(1, 3))]
         headers.append("Description: A long text" + "".join("\n        " + c for c in cont))
+    if rng.random() < 0.1:
+        # characters that some text APIs treat as line boundaries (str.splitlines) but RFC 822 does not: they are ordinary
+        # characters inside a header value, whatever follows them
+        sep = rng.choice(["\u2028", "\u2029", "\x85", "\x0c", "\x0b", "\x1c", "\x1d", "\x1e"])
+        headers.append(rng.choice(["Summary: Fast and small", "Author: J. Doe", "License: MIT", "Keywords: a"]) + sep +
+                       rng.choice(["Requires-Dist: ghost", "Version: 9.9", "Name: jdoe on the forge", "requires-dist: phantom>=1", "plain words"]))
     rng.shuffle(headers)
     if rng.random() < 0.05:
         headers.append(case_variant(rng, "Name") + ": second-name")
